@@ -12,7 +12,8 @@ CHECKS = {
         category="proof",
         text=("Lean theorems C01_precedence / C01_string / C01_spelling_ws / C01_redundant_brackets / C01_unambiguous: every writing of a tree by the "
               "documented stratified grammar (brackets > juxtaposition > AND > XOR > OR), in any operator spelling, with any whitespace and any redundant "
-              "brackets, is parsed by the model to that tree modulo same-operator flattening -- for all lengths and nestings. The model is tied to Lark by "
+              "brackets, is parsed by the model to that tree modulo same-operator flattening -- for all lengths and nestings; conversely C01_every_input: every token string "
+              "the model accepts is a writing of its result in that grammar, so the result is always the documented reading. The model is tied to Lark by "
               "the grammar data extracted from the live parser (T2, proved equal to the grammar modelled), the character classes extracted over all code "
               "points (T1) and a differential run: flat(Lark tree) = flat(model tree) on an exhaustive separator sweep plus generated strings."),
         design_ref="§5 C01",
@@ -22,7 +23,8 @@ CHECKS = {
     "C02": dict(
         category="proof",
         text=("Lean theorems: acceptance of the condition parser model = the context-free grammar as written (both directions, unbounded); an AHB-shaped "
-              "string is never a condition expression, so a malformed condition part always ends in SyntaxError; the model's outcomes are tree|SyntaxError. "
+              "string is never a condition expression, so a malformed condition part always ends in SyntaxError; the model's outcomes are tree|SyntaxError; C02_lex_iff: the scanner "
+              "accepts a character string iff it is a documented spelling of the tokens; C02_ahb_sound: an accepted AHB string is a sequence of modal-mark parts or one prefix-operator part. "
               "Tied to the code by T1/T2 and by comparing, for every generated string (valid, mutated, all short strings exhaustively, Unicode), the outcome "
               "class and accepted structure of all three entry points and of is_valid_expression with the model."),
         design_ref="§5 C02",
@@ -44,17 +46,17 @@ CHECKS = {
         text=("Lean: one-hole-context lemmas (Rel/Weak closed under every surrounding context) give, for every valid tree, every position and every assignment: swapping "
               "operands of U/O/X, and-ing a hint onto the whole or onto any U/O/X operand (either side), attaching a format constraint to any requirement-bearing "
               "sub-expression keep domain membership and validity and leave denote (hence, by C04, the outcome) unchanged; denote is monotone in the information order, "
-              "so definite outcomes survive every resolution of UNKNOWN. The bracket clause is proved only as finding K1 (witness by decide); outside K1's class it is "
-              "checked on the implementation through the real parser. Same model/correspondence as C04; all transformations are also run on the implementation."),
+              "so definite outcomes survive every resolution of UNKNOWN. Brackets: C05_brackets_partial / C05_brackets_written prove that outside the class of finding K1 (no O/X run with a bare "
+              "hint next to a bare format constraint) re-bracketing changes neither validity nor outcome; K1 itself is a proved counterexample (decide) and K1_is_excluded shows it is exactly outside the hypothesis. Same model/correspondence as C04; all transformations are also run on the implementation."),
         design_ref="§5 C05",
-        note=NOTE_COMMON + "Partial: 'redundant brackets keep validity' is a known finding (K1) and is not a theorem; string-level bracket invariance rests on C01 + the correspondence.",
+        note=NOTE_COMMON + "Partial: 'redundant brackets keep validity' is false of the code on K1's class (known finding); the theorem carries the hypothesis that excludes exactly that class.",
         technique="Lean 4 proof (context induction, monotonicity of the four-valued operators) + transformation predicates on the implementation",
     ),
     "C06": dict(
         category="proof",
         text=("Lean: C06_structural — for every tree of the documented domain and EVERY assignment the model raises the invalid-expression error iff the structural "
               "criterion invalidAt holds (so states never matter: C06_all_or_none), C06_neutral_iff, C06_evaluation (whole requirement_constraint_evaluation), "
-              "C06_no_keys. Tied to the code by the tree correspondence (error class gates) and by running is_valid_expression on rendered single- and multi-part AHB "
+              "C06_no_keys; C06_check: the model of is_valid_expression (enumerate generated content results, evaluate, look for the error) equals the criterion. Tied to the code by the tree correspondence (error class gates) and by running is_valid_expression on rendered single- and multi-part AHB "
               "expressions against the structural criterion evaluated on the tree Lark produced."),
         design_ref="§5 C06",
         note=NOTE_COMMON + "Modelled rather than verified: is_valid_expression's gather over generated results (observed), BaseException-ness of InvalidExpressionError (observed).",
@@ -64,10 +66,10 @@ CHECKS = {
         category="proof",
         text=("Lean: the collected expression is modelled as the AST whose rendering is character-for-character what the f-strings of the builder produce; "
               "C07_meaning: for every valid tree, requirement assignment and truth assignment its value equals the direct reading fcSem; C07_absent; C07_keys (only "
-              "format keys of the source); C07_reported. The tie compares, per case, presence, flat(parse) of the real string, its key set and its value under ALL 2^n "
+              "format keys of the source); C07_reported; C07_render_parses / C07_string_value: the rendered string lexes and parses back to that AST and has its value. The tie compares, per case, presence, flat(parse) of the real string, its key set and its value under ALL 2^n "
               "truth assignments (plus format_constraint_evaluation on the real string); the exact layout is compared as advisory and has never differed."),
         design_ref="§5 C07",
-        note=NOTE_COMMON + "Partial: that the rendered string parses back to the AST (string-level well-formedness) is covered by C01's theorems only informally plus the correspondence; Python re.sub/strip are observed.",
+        note=NOTE_COMMON + "Python re.sub/strip in the builder are observed through the correspondence (layout has never differed).",
         technique="Lean 4 proof by structural induction over tree and builder AST + meaning correspondence under all truth assignments",
     ),
     "C08": dict(
@@ -83,10 +85,10 @@ CHECKS = {
         category="proof",
         text=("Lean: C09_normalise over the table extracted from the transformer callbacks for every ASCII case pattern of every spelling (60 entries, kernel-decided); "
               "selection lemmas (first fulfilled part is returned with exactly its own indicator/outcome/hints/format result, else the last; single part unchanged; bare "
-              "indicator result). The AHB scanner model is the one of C02 (T1 classes, T2 grammar). Predicates on the implementation: written parts come back in order for "
+              "indicator result); C09_split_modal / C09_split_prefix: the scanner splits every documented writing into exactly its written parts. The AHB scanner model is the one of C02 (T1 classes, T2 grammar). Predicates on the implementation: written parts come back in order for "
               "every spelling/case/whitespace pattern; the whole result equals the selected part's own evaluation obtained by evaluating that part alone."),
         design_ref="§5 C09",
-        note=NOTE_COMMON + "Partial: the round-trip theorem scanAhb(concat(write parts)) = parts is not yet proved in Lean; it is checked against the implementation and the model on generated expressions.",
+        note=NOTE_COMMON + "Modelled rather than verified: Lark's AHB grammar engine and the async evaluation of the parts (observed through the correspondence).",
         technique="Lean 4 proof over extracted table + list lemmas; part-wise predicate on the implementation; correspondence",
     ),
     "C10": dict(
